@@ -166,3 +166,24 @@ Proof.
   - apply Qle_bool_iff in E1. rewrite Ea, Eb in E1. apply Qle_bool_iff in E1. congruence.
   - apply Qle_bool_iff in E2. rewrite <- Ea, <- Eb in E2. apply Qle_bool_iff in E2. congruence.
 Qed.
+
+(* ---- max(max(xs), m) is the left fold of Qmax over xs from m, up to == *)
+Lemma fold_max_proper l : forall a b, a == b -> fold_left Qmax l a == fold_left Qmax l b.
+Proof. induction l as [|q l IH]; intros a b E; simpl; [exact E|]. apply IH. now rewrite E. Qed.
+Lemma fold_min_proper l : forall a b, a == b -> fold_left Qmin l a == fold_left Qmin l b.
+Proof. induction l as [|q l IH]; intros a b E; simpl; [exact E|]. apply IH. now rewrite E. Qed.
+
+Lemma fold_max_swap l : forall q0 m, Qmax (fold_left Qmax l q0) m == fold_left Qmax l (Qmax m q0).
+Proof.
+  induction l as [|q l IH]; intros q0 m; simpl; [apply Q.max_comm|].
+  rewrite IH. apply fold_max_proper. apply Q.max_assoc.
+Qed.
+Lemma fold_min_swap l : forall q0 m, Qmin (fold_left Qmin l q0) m == fold_left Qmin l (Qmin m q0).
+Proof.
+  induction l as [|q l IH]; intros q0 m; simpl; [apply Q.min_comm|].
+  rewrite IH. apply fold_min_proper. apply Q.min_assoc.
+Qed.
+
+Lemma filter_map_comm {X Y} (f : X -> Y) (p : Y -> bool) (l : list X) :
+  filter p (map f l) = map f (filter (fun x => p (f x)) l).
+Proof. induction l as [|x l IH]; simpl; [reflexivity|]. destruct (p (f x)); simpl; now rewrite IH. Qed.
